@@ -172,14 +172,14 @@ func check(c Case) (err error) {
 	select {
 	case err = <-done:
 		return err
-	case <-time.After(20 * time.Second):
+	case <-time.After(40 * time.Second):
 		buf := make([]byte, 4<<20)
 		n := runtime.Stack(buf, true)
 		dump := string(buf[:n])
 		if strings.Contains(dump, "github.com/paulmach/osm/osmpbf.") {
-			return harness.Failf("C07/hang", "history did not finish within 20s (a call such as Close never returned); goroutines in osmpbf frames:\n%s", trunc(osmpbfGoroutines(), 5000))
+			return harness.Failf("C07/hang", "history did not finish within 40s (a call such as Close never returned); goroutines in osmpbf frames:\n%s", trunc(osmpbfGoroutines(), 5000))
 		}
-		panic("harness: C07 history exceeded 20s without any osmpbf goroutine")
+		panic("harness: C07 history exceeded 40s without any osmpbf goroutine")
 	}
 }
 
@@ -433,8 +433,8 @@ func run(c Case) error {
 	// ---- cleanliness: every goroutine the scanner started terminates
 	stopped := closedCalled || cancelled || completed
 	if stopped {
-		if g := waitNoGoroutines(3 * time.Second); g != "" {
-			return harness.Failf("C07/goroutine-leak", "goroutines still in osmpbf frames 3s after the stop (stop=%d closed=%v cancelled=%v completed=%v):\n%s", stop, closedCalled, cancelled, completed, trunc(g, 4000))
+		if g := waitNoGoroutines(6 * time.Second); g != "" {
+			return harness.Failf("C07/goroutine-leak", "goroutines still in osmpbf frames 6s after the stop (stop=%d closed=%v cancelled=%v completed=%v):\n%s", stop, closedCalled, cancelled, completed, trunc(g, 4000))
 		}
 	}
 
